@@ -252,6 +252,7 @@ _ZK_RULE = ("histories of 8-27 operations by 1-3 REAL zkDCS clients on one fake 
             "distinct = distinct history; non-trivial = more than 3 operations and more than 5 primitives")
 
 PROPS["C15"] = {
+    "facts": ["NewZookeeper"],
     "lean": ["MysyncProofs.C15"],
     "go": [("internal/dcs", "^TestVerifC15$")],
     "level": "proof",
@@ -267,6 +268,7 @@ PROPS["C15"] = {
 }
 
 PROPS["C03"] = {
+    "facts": ["NewZookeeper"],
     "lean": ["MysyncProofs.C03"],
     "go": [("internal/dcs", "^TestVerifC15$"), ("internal/app", "^TestVerifC05$")],
     "level": "proof",
@@ -290,21 +292,24 @@ _SIM_TRUSTED = ["T4 fake MySQL semantics incl. semi-sync acknowledgement rule an
                 "virtual time: one schedule per (seed, configuration); real goroutine interleavings inside a tick are those the Go scheduler produces in the bubble"]
 
 PROPS["C02"] = {
-    "lean": ["MysyncProofs.C02"],
+    "facts": ["App.Run", "App.connectDCS", "App.newDBCluster"],
+    "lean": ["MysyncProofs.C02", "MysyncProofs.C02Safety"],
     "go": [("internal/app", "^TestVerifSim$")],
     "level": "proof",
-    "components": _SIM_COMPONENTS + ["MysyncProofs/C02.lean composes C04 (a,b), C12 and C01 into no_acked_loss_at_promotion"],
+    "components": _SIM_COMPONENTS + ["MysyncProofs/C02.lean composes C04 (a,b), C12 and C01 into no_acked_loss_at_promotion",
+                                      "MysyncModel/Proto/Safety.lean: protocol-level state machine (commit / replicate / failover with the enabling conditions the component properties establish); MysyncProofs/C02Safety.lean: induction over histories"],
     "trusted": _SIM_TRUSTED,
     "rule": "fault grid: {crash of a MySQL server, network isolation of a host, death of a mysync process, loss of the coordination service by one host or by all, manual switchover to / from, no fault} x target host (master more often) x injection offset 0-5 s across the tick / health-check cycle x duration {3 s, 20 s, 90 s, until healing} x 2-4 HA nodes x with/without a cascade replica x wait count 1-2 x failover on/off x failover delay {0,10,30 s} x both semi-sync adjustment orders x with/without a lagging replica (asked to take over in a third of the requests); 40 s warm-up, fault, 6 virtual minutes of healing. distinct = distinct run; non-trivial = a fault or a request was injected",
     "assumptions": ["MySQL semi-sync time-out effectively infinite, wait_no_slave ON, AFTER_SYNC (the project's configuration)", "single fault per run (the property's budget)",
                     "the theorem is stated for a published list that does not change between the acknowledgement and the promotion"],
     "min_lines": 50,
-    "level_text": "PARTIAL. Proved: every acknowledged transaction is executed by the promoted node (composition of C04, C12, C01 for any list size / counts / sets); the canonical predicate implies a single writable reachable HA node equal to the recorded master and all other reachable HA nodes read-only replicas of it; with two faults the quorum refuses. Decided on the real daemons by simulation: return to the canonical state after healing, acknowledged set on the final master, never two acknowledging nodes in one round, no flip-back of the acknowledging node.",
+    "level_text": "PARTIAL. Proved: every acknowledged transaction is executed by the promoted node (composition of C04, C12, C01 for any list size / counts / sets); over the protocol-level state machine (commits acknowledged under C04's guarantees, replication, failovers admitted by C01 / C12's conditions, regenerated quorum arithmetic, fixed published list) NO history of any length loses an acknowledged transaction, and every acknowledged transaction stays on a set of hosts that meets every quorum (acked_never_lost, acked_meets_every_quorum); the canonical predicate implies a single writable reachable HA node equal to the recorded master and all other reachable HA nodes read-only replicas of it; with two faults the quorum refuses. Decided on the real daemons by simulation: return to the canonical state after healing, acknowledged set on the final master, never two acknowledging nodes in one round, no flip-back of the acknowledging node.",
     "level_note": "Convergence (fairness of the real loops, time-outs) and the end-to-end statement are NOT a theorem: no composed model of N daemons was built; the simulation explores one schedule per configuration and seed. Trusted: Lean kernel, fakes (T4), harness copy of Run's loop.",
     "technique": "Lean 4 proof of the safety composition + simulation of the real daemons with Lean-evaluated verdict predicates",
 }
 
 PROPS["C07"] = {
+    "facts": ["App.Run", "App.connectDCS", "App.newDBCluster"],
     "lean": ["MysyncProofs.C07"],
     "go": [("internal/app", "^TestVerifC07$")],
     "level": "proof",
@@ -319,6 +324,7 @@ PROPS["C07"] = {
 }
 
 PROPS["C20"] = {
+    "facts": ["App.Run", "App.connectDCS", "App.newDBCluster"],
     "lean": ["MysyncProofs.C20"],
     "go": [("internal/app", "^TestVerifC20$"), ("internal/app", "^TestVerifSim$"),
            # every handler-level harness recovers panics of the real handler: they are C20 violations wherever they occur
